@@ -319,7 +319,7 @@ func isIdentChar(c byte) bool {
 // ruleTupleKeyWriter: keys.Tuple.WriteTo encodes every field of TupleKey incl. condition name+context;
 // keys.PbValue.WriteTo is total over structpb kinds.
 func ruleKeySerializers(e *Engine, r *Reporter) {
-	r.Rule("key-serializers", "keys.Tuple.WriteTo reads object, relation, user, condition name and condition context; keys.PbValue.WriteTo covers every structpb kind and sorts struct fields before encoding", 7)
+	r.Rule("key-serializers", "keys.Tuple.WriteTo reads object, relation, user, condition name and condition context; keys.PbValue.WriteTo covers every structpb kind and sorts struct fields before encoding", 5)
 	fn := e.Func("pkg/storage/cache/keys", "Tuple.WriteTo")
 	paths := e.accessPaths(fn, fn.Params[0], 2)
 	for _, g := range []string{"Object", "Relation", "User", "Condition.Name", "Condition.Context"} {
